@@ -342,17 +342,17 @@ Lemma firstn_S_skipn : forall {A} (l : list A) k n a,
   nth_error l k = Some a -> firstn (S n) (skipn k l) = a :: firstn n (skipn (S k) l).
 Proof. intros. rewrite (skipn_cons_nth l k a) by auto. reflexivity. Qed.
 
-Lemma measure_loop_view : forall n t bits qubits bras boff qoff j t' bits',
-  measure_loop t bits qubits bras boff qoff j n = Ok (t', bits') ->
+Lemma measure_loop_view : forall fx n t bits qubits bras boff qoff j t' bits',
+  measure_loop fx t bits qubits bras boff qoff j n = Ok (t', bits') ->
   t_nq t' = t_nq t /\
   map qpart (t_cmds t') = map qpart (t_cmds t) ++ meas_cmds (firstn n (skipn (qoff + j) qubits)) /\
   length (firstn n (skipn (qoff + j) qubits)) = n.
 Proof.
-  induction n; intros t bits qubits bras boff qoff j t' bits' H; simpl in H.
+  intros fx. induction n; intros t bits qubits bras boff qoff j t' bits' H; simpl in H.
   - inversion H; subst. simpl. rewrite app_nil_r. auto.
   - unfold nth_res in H. destruct (nth_error qubits (qoff + j)) as [iq|] eqn:Eq; simpl in H; [|discriminate].
-    destruct (tk_add_bit t (match bras with None => Some (length bits) | Some _ => None end)) as [t1|] eqn:E1;
-      simpl in H; [|discriminate].
+    match type of H with context [tk_add_bit t ?o] =>
+      destruct (tk_add_bit t o) as [t1|] eqn:E1 end; simpl in H; [|discriminate].
     apply tk_add_bit_view in E1. destruct E1 as [E1n E1c].
     rewrite (firstn_S_skipn _ _ _ _ Eq).
     destruct bras as [bs|].
@@ -529,21 +529,23 @@ Proof.
 Qed.
 
 (* ------------------------------------------------------------------ one layer *)
-Definition box_allowed (b : box) : bool :=
-  match b with BMeasure _ true true => false | _ => true end.
-Definition layers_allowed (ls : list layer) : bool := forallb (fun l => box_allowed (fst l)) ls.
+(* the pinned code mishandles destructive overriding measurements (F34) *)
+Definition box_allowed (fx : fixes) (b : box) : bool :=
+  match b with BMeasure _ true true => fx34 fx | _ => true end.
+Definition layers_allowed (fx : fixes) (ls : list layer) : bool :=
+  forallb (fun l => box_allowed fx (fst l)) ls.
 
-Lemma step_sim : forall scan s q rho l s',
-  Inv s q rho -> to_tk_step scan s l = Ok s' -> box_allowed (fst l) = true ->
+Lemma step_sim : forall fx scan s q rho l s',
+  Inv s q rho -> to_tk_step fx scan s l = Ok s' -> box_allowed fx (fst l) = true ->
   exists q' rho', qtrace_step scan q l = Some q' /\ Inv s' q' rho'.
 Proof.
-  intros scan s q rho [b off] s' I H Hal. unfold to_tk_step in H. unfold qtrace_step.
+  intros fx scan s q rho [b off] s' I H Hal. unfold to_tk_step in H. unfold qtrace_step.
   set (qoff := countq (firstn off scan)) in *. set (boff := countb (firstn off scan)) in *.
   destruct b as [bs|bs|bs dag|g n ph|wl wr|n destr over|d|id mixed|id n m|id d c]; simpl in Hal.
   - (* Ket *)
     destruct (step_ket _ _ _ _ _ _ I H) as [rho' I']. eauto.
   - (* Bra *)
-    destruct (measure_loop (s_tk s) (s_bits s) (s_qubits s) (Some bs) boff qoff 0 (length bs))
+    destruct (measure_loop fx (s_tk s) (s_bits s) (s_qubits s) (Some bs) boff qoff 0 (length bs))
       as [[t' bits']|] eqn:E; simpl in H; [|discriminate].
     inversion H; subst s'; clear H.
     apply measure_loop_view in E. rewrite Nat.add_0_r in E. destruct E as [En [Ec El]].
@@ -600,14 +602,18 @@ Proof.
       rewrite Hsk. eauto.
   - (* Measure *)
     destruct over.
-    + destruct destr; [discriminate|].
-      destruct (measure_override (s_tk s) (s_bits s) (s_qubits s) boff qoff 0 n) as [t'|] eqn:E;
+    + destruct (measure_override (s_tk s) (s_bits s) (s_qubits s) boff qoff 0 n) as [t'|] eqn:E;
         simpl in H; [|discriminate].
       inversion H; subst s'; clear H.
       apply measure_override_view in E. rewrite Nat.add_0_r in E. destruct E as [En [Ec El]].
-      destruct (step_measure s q rho (ST t' (s_bits s) (s_qubits s)) qoff n false I) as [Hlen I']; auto.
+      assert (Hrm : (fx34 fx && destr) = destr).
+      { destruct destr; [simpl in Hal; rewrite Hal|]; auto. apply andb_false_r. }
+      rewrite Hrm.
+      destruct (step_measure s q rho
+                  (ST t' (s_bits s) (if destr then remove_range (s_qubits s) qoff n else s_qubits s))
+                  qoff n destr I) as [Hlen I']; auto.
       rewrite Hlen, Nat.eqb_refl. eauto.
-    + destruct (measure_loop (s_tk s) (s_bits s) (s_qubits s) None boff qoff 0 n)
+    + destruct (measure_loop fx (s_tk s) (s_bits s) (s_qubits s) None boff qoff 0 n)
         as [[t' bits']|] eqn:E; simpl in H; [|discriminate].
       inversion H; subst s'; clear H.
       apply measure_loop_view in E. rewrite Nat.add_0_r in E. destruct E as [En [Ec El]].
@@ -616,6 +622,7 @@ Proof.
                   qoff n destr I) as [Hlen I']; auto.
       rewrite Hlen, Nat.eqb_refl. eauto.
   - (* Discard *)
+    match type of H with context [bind ?x _] => destruct x as [p|]; cbn [bind] in H; [|discriminate] end.
     inversion H; subst s'. eexists _, rho. split; [reflexivity|].
     eapply Inv_remove; eauto.
   - (* Scalar *)
@@ -627,15 +634,15 @@ Proof.
 Qed.
 
 (* ------------------------------------------------------------------ all layers *)
-Lemma layers_sim : forall ls scan s q rho s',
-  Inv s q rho -> to_tk_layers scan s ls = Ok s' -> layers_allowed ls = true ->
+Lemma layers_sim : forall fx ls scan s q rho s',
+  Inv s q rho -> to_tk_layers fx scan s ls = Ok s' -> layers_allowed fx ls = true ->
   exists q' rho', qtrace_layers scan q ls = Some q' /\ Inv s' q' rho'.
 Proof.
-  induction ls as [|l ls IH]; intros scan s q rho s' I H Hal; simpl in *.
+  intros fx. induction ls as [|l ls IH]; intros scan s q rho s' I H Hal; simpl in *.
   - inversion H; subst. eauto.
   - apply andb_prop in Hal. destruct Hal as [Hl Hls].
-    destruct (to_tk_step scan s l) as [s1|] eqn:E; simpl in H; [|discriminate].
-    destruct (step_sim _ _ _ _ _ _ I E Hl) as [q1 [rho1 [Hq1 I1]]].
+    destruct (to_tk_step fx scan s l) as [s1|] eqn:E; simpl in H; [|discriminate].
+    destruct (step_sim _ _ _ _ _ _ _ I E Hl) as [q1 [rho1 [Hq1 I1]]].
     rewrite Hq1. eapply IH; eauto.
 Qed.
 
@@ -643,14 +650,14 @@ Lemma Inv_init : Inv st0 (QS [] 0 []) (fun l => l).
 Proof. constructor; simpl; auto; intros; lia. Qed.
 
 (* a run on ls1 ++ ls2 passes through a successful run on the prefix ls1 *)
-Lemma to_tk_layers_app : forall ls1 ls2 scan s s',
-  to_tk_layers scan s (ls1 ++ ls2) = Ok s' ->
-  exists s1, to_tk_layers scan s ls1 = Ok s1 /\
-             to_tk_layers (fold_left step_ty ls1 scan) s1 ls2 = Ok s'.
+Lemma to_tk_layers_app : forall fx ls1 ls2 scan s s',
+  to_tk_layers fx scan s (ls1 ++ ls2) = Ok s' ->
+  exists s1, to_tk_layers fx scan s ls1 = Ok s1 /\
+             to_tk_layers fx (fold_left step_ty ls1 scan) s1 ls2 = Ok s'.
 Proof.
-  induction ls1 as [|l ls1 IH]; intros ls2 scan s s' H; simpl in *.
+  intros fx. induction ls1 as [|l ls1 IH]; intros ls2 scan s s' H; simpl in *.
   - eauto.
-  - destruct (to_tk_step scan s l) as [s1|]; simpl in *; [|discriminate]. apply IH. exact H.
+  - destruct (to_tk_step fx scan s l) as [s1|]; simpl in *; [|discriminate]. apply IH. exact H.
 Qed.
 
 (* the register invariant in plain terms *)
@@ -661,69 +668,69 @@ Definition registers_ok (s : st) (q : qst) (rho : nat -> nat) : Prop :=
   (forall a b, a < q_next q -> b < q_next q -> rho a = rho b -> a = b) /\
   q_next q = t_nq (s_tk s).
 
-Theorem to_tk_registers_inv_lemma : forall dom ls1 ls2 s',
-  to_tk_layers dom st0 (ls1 ++ ls2) = Ok s' -> layers_allowed (ls1 ++ ls2) = true ->
+Theorem to_tk_registers_inv_lemma : forall fx dom ls1 ls2 s',
+  to_tk_layers fx dom st0 (ls1 ++ ls2) = Ok s' -> layers_allowed fx (ls1 ++ ls2) = true ->
   exists s1 q1 rho1,
-    to_tk_layers dom st0 ls1 = Ok s1 /\
+    to_tk_layers fx dom st0 ls1 = Ok s1 /\
     qtrace_layers dom (QS [] 0 []) ls1 = Some q1 /\
     registers_ok s1 q1 rho1.
 Proof.
-  intros dom ls1 ls2 s' H Hal.
-  destruct (to_tk_layers_app _ _ _ _ _ H) as [s1 [H1 _]].
+  intros fx dom ls1 ls2 s' H Hal.
+  destruct (to_tk_layers_app _ _ _ _ _ _ H) as [s1 [H1 _]].
   unfold layers_allowed in Hal. rewrite forallb_app in Hal. apply andb_prop in Hal. destruct Hal as [Hal1 _].
-  destruct (layers_sim _ _ _ _ _ _ Inv_init H1 Hal1) as [q1 [rho1 [Hq I1]]].
+  destruct (layers_sim _ _ _ _ _ _ _ Inv_init H1 Hal1) as [q1 [rho1 [Hq I1]]].
   exists s1, q1, rho1. split; auto. split; auto.
   destruct I1 as [Iq Ic In Ib Ii Il Ie Is]. unfold registers_ok. repeat split; auto.
   rewrite Iq, map_length. reflexivity.
 Qed.
 
-Theorem to_tk_refines_trace_lemma : forall dom ls s',
-  to_tk_layers dom st0 ls = Ok s' -> layers_allowed ls = true ->
+Theorem to_tk_refines_trace_lemma : forall fx dom ls s',
+  to_tk_layers fx dom st0 ls = Ok s' -> layers_allowed fx ls = true ->
   exists q rho,
     qtrace_layers dom (QS [] 0 []) ls = Some q /\
     (forall a b, a < q_next q -> b < q_next q -> rho a = rho b -> a = b) /\
     Forall (fun e => Forall (fun l => l < q_next q) (ev_labs e)) (q_events q) /\
     map qpart (t_cmds (s_tk s')) = map (relabel rho) (q_events q).
 Proof.
-  intros dom ls s' H Hal.
-  destruct (layers_sim _ _ _ _ _ _ Inv_init H Hal) as [q [rho [Hq I]]].
+  intros fx dom ls s' H Hal.
+  destruct (layers_sim _ _ _ _ _ _ _ Inv_init H Hal) as [q [rho [Hq I]]].
   exists q, rho. destruct I. auto.
 Qed.
 
 (* prep adds no Measure box *)
-Lemma allowed_x_layers : forall bs off, layers_allowed (x_layers bs off) = true.
-Proof. induction bs as [|b bs IH]; intros off; simpl; auto. destruct b; simpl; auto. Qed.
-Lemma allowed_app : forall a b, layers_allowed (a ++ b) = layers_allowed a && layers_allowed b.
+Lemma allowed_x_layers : forall fx bs off, layers_allowed fx (x_layers bs off) = true.
+Proof. intros fx. induction bs as [|b bs IH]; intros off; simpl; auto. destruct b; simpl; auto. Qed.
+Lemma allowed_app : forall fx a b, layers_allowed fx (a ++ b) = layers_allowed fx a && layers_allowed fx b.
 Proof. intros. apply forallb_app. Qed.
-Lemma allowed_init : forall dom k, layers_allowed (init_layers dom k) = true.
-Proof. induction dom as [|w dom IH]; intros k; simpl; auto. destruct w; simpl; auto. Qed.
-Lemma allowed_discard : forall cod k, layers_allowed (discard_layers cod k) = true.
-Proof. induction cod as [|w cod IH]; intros k; simpl; auto. destruct w; simpl; auto. Qed.
-Lemma allowed_remove_ket1 : forall ls,
-  layers_allowed (flat_map remove_ket1_layer ls) = layers_allowed ls.
+Lemma allowed_init : forall fx dom k, layers_allowed fx (init_layers dom k) = true.
+Proof. intros fx. induction dom as [|w dom IH]; intros k; simpl; auto. destruct w; simpl; auto. Qed.
+Lemma allowed_discard : forall fx cod k, layers_allowed fx (discard_layers cod k) = true.
+Proof. intros fx. induction cod as [|w cod IH]; intros k; simpl; auto. destruct w; simpl; auto. Qed.
+Lemma allowed_remove_ket1 : forall fx ls,
+  layers_allowed fx (flat_map remove_ket1_layer ls) = layers_allowed fx ls.
 Proof.
-  induction ls as [|[b off] ls IH]; simpl; auto.
+  intros fx. induction ls as [|[b off] ls IH]; simpl; auto.
   destruct b; simpl; rewrite ?IH; auto.
-  fold (layers_allowed (x_layers bs off ++ flat_map remove_ket1_layer ls)).
+  fold (layers_allowed fx (x_layers bs off ++ flat_map remove_ket1_layer ls)).
   rewrite allowed_app, allowed_x_layers, IH. reflexivity.
 Qed.
-Lemma allowed_prep : forall c, layers_allowed (c_layers (prep c)) = layers_allowed (c_layers c).
+Lemma allowed_prep : forall fx c, layers_allowed fx (c_layers (prep c)) = layers_allowed fx (c_layers c).
 Proof.
-  intros c. unfold prep, remove_ket1, init_and_discard. cbn [c_layers].
+  intros fx c. unfold prep, remove_ket1, init_and_discard. cbn [c_layers].
   rewrite allowed_remove_ket1, !allowed_app, allowed_init. simpl.
   destruct (Nat.eqb _ 0); simpl; [|rewrite allowed_discard]; rewrite andb_true_r; reflexivity.
 Qed.
 
 (* the headline statement, for circuits *)
-Theorem to_tk_refines_trace_circuit : forall c s,
-  to_tk_state c = Ok s -> layers_allowed (c_layers c) = true ->
+Theorem to_tk_refines_trace_circuit : forall fx c s,
+  to_tk_state fx c = Ok s -> layers_allowed fx (c_layers c) = true ->
   exists q rho,
     qtrace (prep c) = Some q /\
     (forall a b, a < q_next q -> b < q_next q -> rho a = rho b -> a = b) /\
     map qpart (t_cmds (s_tk s)) = map (relabel rho) (q_events q).
 Proof.
-  intros c s H Hal. unfold to_tk_state in H. rewrite <- allowed_prep in Hal.
-  destruct (to_tk_refines_trace_lemma _ _ _ H Hal) as [q [rho [H1 [H2 [_ H3]]]]].
+  intros fx c s H Hal. unfold to_tk_state in H. rewrite <- allowed_prep in Hal.
+  destruct (to_tk_refines_trace_lemma _ _ _ _ H Hal) as [q [rho [H1 [H2 [_ H3]]]]].
   exists q, rho. auto.
 Qed.
 
@@ -734,8 +741,8 @@ Definition example_circuit : circuit :=
            (BGate 7 2 (Dy 0 0), 1); (BGate g_Rx 1 (Dy 5 4), 0); (BBra [false], 1);
            (BMeasure 2 true false, 0)].
 Example example_runs :
-  layers_allowed (c_layers example_circuit) = true /\
-  (exists s, to_tk_state example_circuit = Ok s /\
+  layers_allowed pinned (c_layers example_circuit) = true /\
+  (exists s, to_tk_state pinned example_circuit = Ok s /\
              map qpart (t_cmds (s_tk s)) =
                [(4%Z, None, [2]); (7%Z, None, [1; 2]); (g_Rx, Some (Dy 5 3), [0]);
                 (0%Z, None, [1]); (0%Z, None, [0]); (0%Z, None, [2])] /\
@@ -745,12 +752,18 @@ Example example_runs :
           EMeas 2; EMeas 1; EMeas 0].
 Proof. vm_compute. split; auto. split; eauto 10. Qed.
 
+(* well-formedness of a tket circuit handed to from_tk *)
+Definition cmds_in_range (nq : nat) (cs : list cmd) : bool :=
+  forallb (fun c => forallb (fun q => q <? nq) (c_qs c)) cs.
+Definition pp_layers (p : ppd) : list layer := map (fun '(b, o) => (pbox_to_box b, o)) (pp_boxes p).
+Definition pp_ok (p : ppd) : bool := layers_ok (rep (pp_dom p) WBit) (pp_layers p).
+
 (* ------------------------------------------------------------------ full statements and refutations *)
 (* (1) every output bit of the exported circuit comes from where the circuit says
    (symbolic provenance through measurements, post-selection and post-processing) *)
-Definition to_tk_routing_stmt : Prop :=
-  forall c t, circuit_ok (prep c) = true -> layers_allowed (c_layers c) = true ->
-              to_tk c = Ok t -> routing_ok c t = true.
+Definition to_tk_routing_stmt (fx : fixes) : Prop :=
+  forall c t, circuit_ok (prep c) = true -> layers_allowed fx (c_layers c) = true ->
+              to_tk fx c = Ok t -> routing_ok c t = true.
 
 (* F10: Ket(0,0) >> X @ Id(1) >> Measure() @ Id(1) >> Swap(bit, qubit) >> Measure() @ Id(bit) *)
 Definition f10_witness : circuit :=
@@ -780,39 +793,43 @@ Definition f33_witness : tkc :=
 
 Ltac refute_routing w :=
   intros H;
-  assert (E : exists t, to_tk w = Ok t /\ routing_ok w t = false)
+  assert (E : exists t, to_tk pinned w = Ok t /\ routing_ok w t = false)
     by (vm_compute; eexists; split; reflexivity);
   destruct E as [t [E1 E2]];
   rewrite (H w t) in E2; [discriminate | reflexivity | reflexivity | exact E1].
 
-Theorem to_tk_routing_refuted_F10 : ~ to_tk_routing_stmt.
+Theorem to_tk_routing_refuted_F10 : ~ to_tk_routing_stmt pinned.
 Proof. refute_routing f10_witness. Qed.
-Theorem to_tk_routing_refuted_F30 : ~ to_tk_routing_stmt.
+Theorem to_tk_routing_refuted_F30 : ~ to_tk_routing_stmt pinned.
 Proof. refute_routing f30_witness. Qed.
-Theorem to_tk_routing_refuted_F31 : ~ to_tk_routing_stmt.
+Theorem to_tk_routing_refuted_F31 : ~ to_tk_routing_stmt pinned.
 Proof. refute_routing f31_witness. Qed.
-Theorem to_tk_routing_refuted_F32 : ~ to_tk_routing_stmt.
+Theorem to_tk_routing_refuted_F32 : ~ to_tk_routing_stmt pinned.
 Proof. refute_routing f32_witness. Qed.
 
 (* the trigger predicates computed by the model hold on the witnesses, and only theirs *)
 Example witnesses_trigger :
-  fl_f10 (to_tk_flags f10_witness) = true /\ fl_f30 (to_tk_flags f10_witness) = false /\
-  fl_f30 (to_tk_flags f30_witness) = true /\ fl_f10 (to_tk_flags f30_witness) = false /\
-  fl_f31 (to_tk_flags f31_witness) = true /\ fl_f32 (to_tk_flags f32_witness) = true /\
-  fl_f34 (to_tk_flags f34_witness) = true /\ to_tk_flags example_circuit = fl0.
+  fl_f10 (to_tk_flags pinned f10_witness) = true /\ fl_f30 (to_tk_flags pinned f10_witness) = false /\
+  fl_f30 (to_tk_flags pinned f30_witness) = true /\ fl_f10 (to_tk_flags pinned f30_witness) = false /\
+  fl_f31 (to_tk_flags pinned f31_witness) = true /\ fl_f32 (to_tk_flags pinned f32_witness) = true /\
+  fl_f34 (to_tk_flags pinned f34_witness) = true /\ to_tk_flags pinned example_circuit = fl0 /\
+  (* with the repairs the triggers are off (F30 has no repair) *)
+  to_tk_flags repaired f10_witness = fl0 /\ to_tk_flags repaired f31_witness = fl0 /\
+  to_tk_flags repaired f32_witness = fl0 /\ fl_f34 (to_tk_flags repaired f34_witness) = false /\
+  fl_f30 (to_tk_flags repaired f30_witness) = true.
 Proof. vm_compute. repeat split. Qed.
 
 (* (2) trace refinement without the restriction on destructive overriding measurements *)
-Definition to_tk_refines_trace_unrestricted_stmt : Prop :=
-  forall c s, to_tk_state c = Ok s ->
+Definition to_tk_refines_trace_unrestricted_stmt (fx : fixes) : Prop :=
+  forall c s, to_tk_state fx c = Ok s ->
     exists q rho, qtrace (prep c) = Some q /\
       (forall a b, a < q_next q -> b < q_next q -> rho a = rho b -> a = b) /\
       map qpart (t_cmds (s_tk s)) = map (relabel rho) (q_events q).
 
-Theorem to_tk_refines_trace_refuted_F34 : ~ to_tk_refines_trace_unrestricted_stmt.
+Theorem to_tk_refines_trace_refuted_F34 : ~ to_tk_refines_trace_unrestricted_stmt pinned.
 Proof.
   intros H.
-  assert (E : exists s, to_tk_state f34_witness = Ok s /\
+  assert (E : exists s, to_tk_state pinned f34_witness = Ok s /\
                         map qpart (t_cmds (s_tk s)) = [(4%Z, None, [2]); (0%Z, None, [1]); (0%Z, None, [1])])
     by (vm_compute; eexists; split; reflexivity).
   destruct E as [s [E1 E2]].
@@ -826,19 +843,19 @@ Qed.
 
 (* the same defect seen by the register invariant: a stale register stays in `qubits` *)
 Theorem to_tk_registers_refuted_F34 :
-  exists s, to_tk_state f34_witness = Ok s /\
+  exists s, to_tk_state pinned f34_witness = Ok s /\
             countq (cod_of [] (c_layers (prep f34_witness))) = 0 /\ s_qubits s = [2].
 Proof. vm_compute. eexists. split; [reflexivity|]. split; reflexivity. Qed.
 
 (* (3) importing an exported circuit *)
 Definition scalar_flag (t : tkc) : option Z := match t_scal t with [] => None | _ => Some 0%Z end.
-Definition from_to_roundtrip_stmt : Prop :=
-  forall c t, circuit_ok (prep c) = true -> layers_allowed (c_layers c) = true ->
-              to_tk c = Ok t -> exists c2, from_tk t (scalar_flag t) = Ok c2.
-Theorem from_to_roundtrip_refuted_F18 : ~ from_to_roundtrip_stmt.
+Definition from_to_roundtrip_stmt (fx : fixes) : Prop :=
+  forall c t, circuit_ok (prep c) = true -> layers_allowed fx (c_layers c) = true ->
+              to_tk fx c = Ok t -> exists c2, from_tk fx t (scalar_flag t) = Ok c2.
+Theorem from_to_roundtrip_refuted_F18 : ~ from_to_roundtrip_stmt pinned.
 Proof.
   intros H.
-  assert (E : exists t, to_tk f18_witness = Ok t /\ from_tk t (scalar_flag t) = Err AxiomError)
+  assert (E : exists t, to_tk pinned f18_witness = Ok t /\ from_tk pinned t (scalar_flag t) = Err AxiomError)
     by (vm_compute; eexists; split; reflexivity).
   destruct E as [t [E1 E2]].
   destruct (H f18_witness t) as [c2 Hc2]; [reflexivity | reflexivity | exact E1 |].
@@ -846,28 +863,29 @@ Proof.
 Qed.
 
 (* (4) the imported circuit applies the tket circuit's gates to the right wires *)
-Definition from_tk_refines_trace_stmt : Prop :=
-  forall t c, from_tk t None = Ok c -> from_tk_trace_ok t c = true.
-Theorem from_tk_refines_trace_refuted_F33 : ~ from_tk_refines_trace_stmt.
+Definition from_tk_refines_trace_stmt (fx : fixes) : Prop :=
+  forall t c, cmds_in_range (t_nq t) (t_cmds t) = true ->
+              from_tk fx t None = Ok c -> from_tk_trace_ok t c = true.
+Theorem from_tk_refines_trace_refuted_F33 : ~ from_tk_refines_trace_stmt pinned.
 Proof.
   intros H.
-  assert (E : exists c, from_tk f33_witness None = Ok c /\ from_tk_trace_ok f33_witness c = false)
+  assert (E : exists c, from_tk pinned f33_witness None = Ok c /\ from_tk_trace_ok f33_witness c = false)
     by (vm_compute; eexists; split; reflexivity).
-  destruct E as [c [E1 E2]]. rewrite (H _ _ E1) in E2. discriminate.
+  destruct E as [c [E1 E2]]. rewrite (H f33_witness c eq_refl E1) in E2. discriminate.
 Qed.
 (* ... while adjacent and leftward second qubits are handled correctly *)
 Example from_tk_trace_ok_examples :
-  (exists c, from_tk (TK 3 0 [Cmd 1 None [1] []; Cmd 7 None [1; 2] []; Cmd 7 None [1; 0] []] [] [] (PP 0 0 []))
+  (exists c, from_tk pinned (TK 3 0 [Cmd 1 None [1] []; Cmd 7 None [1; 2] []; Cmd 7 None [1; 0] []] [] [] (PP 0 0 []))
                      None = Ok c /\
              from_tk_trace_ok (TK 3 0 [Cmd 1 None [1] []; Cmd 7 None [1; 2] []; Cmd 7 None [1; 0] []]
                                   [] [] (PP 0 0 [])) c = true /\ circuit_ok c = true).
 Proof. vm_compute. eexists. repeat split. Qed.
 
 (* (5) post-selection keys under a swap of two other bit registers *)
-Definition swap_keeps_post_selection_stmt : Prop :=
+Definition swap_keeps_post_selection_stmt (fx : fixes) : Prop :=
   forall t i j, has_key (t_psel t) i = false -> has_key (t_psel t) j = false ->
-                t_psel (swap_bits t i j) = t_psel t.
-Theorem swap_keeps_post_selection_refuted_F32 : ~ swap_keeps_post_selection_stmt.
+                t_psel (swap_bits fx t i j) = t_psel t.
+Theorem swap_keeps_post_selection_refuted_F32 : ~ swap_keeps_post_selection_stmt pinned.
 Proof.
   intros H.
   specialize (H (TK 0 3 [] [(0, false)] [] (PP 2 2 [])) 1 2 eq_refl eq_refl).
@@ -1260,12 +1278,12 @@ Proof.
   rewrite layers_ok_cons, cod_of_cons. cbn [layers_ok cod_of fold_left]. rewrite H3, Hstep, D1, D2. auto.
 Qed.
 
-Lemma mua_ok : forall qs cod offset acc i scan o' cod' acc',
+Lemma mua_ok : forall fx qs cod offset acc i scan o' cod' acc',
   layers_ok scan (swaps_layers acc) = true -> cod_of scan (swaps_layers acc) = cod ->
-  mua_loop cod offset acc qs i = (o', cod', acc') ->
+  mua_loop fx cod offset acc qs i = (o', cod', acc') ->
   layers_ok scan (swaps_layers acc') = true /\ cod_of scan (swaps_layers acc') = cod'.
 Proof.
-  induction qs as [|source qs IH]; intros cod offset acc i scan o' cod' acc' H1 H2 H; cbn [mua_loop] in H.
+  intros fx. induction qs as [|source qs IH]; intros cod offset acc i scan o' cod' acc' H1 H2 H; cbn [mua_loop] in H.
   - inversion H; subst. auto.
   - destruct (Nat.ltb_spec source (offset + i + 1)) as [Hlt|Hge].
     + eapply IH; [| |exact H].
@@ -1278,17 +1296,17 @@ Proof.
                       (firstn source cod) (skipn (offset + i + 1) cod) _ eq_refl) as [_ S2].
         rewrite <- (decomp3 cod source (S source) (offset + i + 1)) in S2 by lia. exact S2.
     + destruct (Nat.ltb_spec (offset + i + 1) source) as [Hlt|Hge2].
-      * eapply IH; [| |exact H].
+      * set (mid := if fx33 fx then source else S (offset + i + 1)) in *.
+        assert (Hmid : offset + i + 1 <= mid /\ mid <= S source) by (unfold mid; destruct (fx33 fx); lia).
+        eapply IH; [| |exact H].
         -- rewrite swaps_layers_app, layers_ok_app, H1, H2. cbn [andb].
-           pose proof (swap_boxes_ok (slice cod (offset + i + 1) (S (offset + i + 1)))
-                         (slice cod (S (offset + i + 1)) (S source))
+           pose proof (swap_boxes_ok (slice cod (offset + i + 1) mid) (slice cod mid (S source))
                          (firstn (offset + i + 1) cod) (skipn (S source) cod) _ eq_refl) as [S1 _].
-           rewrite <- (decomp3 cod (offset + i + 1) (S (offset + i + 1)) (S source)) in S1 by lia. exact S1.
+           rewrite <- (decomp3 cod (offset + i + 1) mid (S source)) in S1 by lia. exact S1.
         -- rewrite swaps_layers_app, cod_of_app, H2.
-           pose proof (swap_boxes_ok (slice cod (offset + i + 1) (S (offset + i + 1)))
-                         (slice cod (S (offset + i + 1)) (S source))
+           pose proof (swap_boxes_ok (slice cod (offset + i + 1) mid) (slice cod mid (S source))
                          (firstn (offset + i + 1) cod) (skipn (S source) cod) _ eq_refl) as [_ S2].
-           rewrite <- (decomp3 cod (offset + i + 1) (S (offset + i + 1)) (S source)) in S2 by lia. exact S2.
+           rewrite <- (decomp3 cod (offset + i + 1) mid (S source)) in S2 by lia. exact S2.
       * eapply IH; eauto.
 Qed.
 
@@ -1300,18 +1318,20 @@ Proof.
   - destruct (from_tk_known (c_op c)); inversion H; reflexivity.
 Qed.
 
-Lemma from_tk_cmd_ok : forall nq nb psel cod f c f',
+Lemma from_tk_cmd_ok : forall fx nq nb psel cod f c f',
   layers_ok [] (f_layers f) = true -> cod_of [] (f_layers f) = cod ->
-  from_tk_cmd nq nb psel cod f c = Ok f' ->
+  from_tk_cmd fx nq nb psel cod f c = Ok f' ->
   layers_ok [] (f_layers f') = true /\ cod_of [] (f_layers f') = cod.
 Proof.
-  intros nq nb psel cod f c f' H1 H2 H. unfold from_tk_cmd in H.
+  intros fx nq nb psel cod f c f' H1 H2 H. unfold from_tk_cmd in H.
   destruct (c_op c =? op_Measure)%Z.
   - destruct (nth_res (c_qs c) 0) as [offset|]; cbn [bind] in H; [|discriminate].
-    destruct (nth_res (c_bs c) 0) as [bi|]; cbn [bind] in H; [|discriminate].
-    destruct (ps_lookup psel bi).
+    destruct (nth_res (c_bs c) 0) as [bi0|]; cbn [bind] in H; [|discriminate].
+    destruct (ps_lookup psel bi0).
     + inversion H; subst. auto.
-    + match type of H with context [ty_eqb cod ?sd] => destruct (ty_eqb cod sd) eqn:E1 end;
+    + cbv zeta in H.
+      set (bi := if fx18 fx then bi0 - length (filter (fun kv => fst kv <? bi0) psel) else bi0) in *.
+      match type of H with context [ty_eqb cod ?sd] => destruct (ty_eqb cod sd) eqn:E1 end;
         cbn [negb] in H; [|discriminate].
       match type of H with context [layer_ok ?sc ?l] => destruct (layer_ok sc l) eqn:E2 end;
         cbn [negb] in H; [|discriminate].
@@ -1324,24 +1344,24 @@ Proof.
       apply (conj_ok cod _ _ _ _ S1 S2 E2). reflexivity.
   - destruct (from_tk_box c) as [b|] eqn:Eb; cbn [bind] in H; [|discriminate].
     destruct (nth_res (c_qs c) 0) as [q0|]; cbn [bind] in H; [|discriminate].
-    destruct (mua_loop cod q0 [] (tl (c_qs c)) 0) as [[offset scod] sw] eqn:Em.
+    destruct (mua_loop fx cod q0 [] (tl (c_qs c)) 0) as [[offset scod] sw] eqn:Em.
     match type of H with context [layer_ok ?sc ?l] => destruct (layer_ok sc l) eqn:E2 end;
       cbn [negb] in H; [|discriminate].
     inversion H; subst f'; clear H. cbn [f_layers].
-    destruct (mua_ok (tl (c_qs c)) cod q0 [] 0 cod offset scod sw eq_refl eq_refl Em) as [S1 S2].
+    destruct (mua_ok fx (tl (c_qs c)) cod q0 [] 0 cod offset scod sw eq_refl eq_refl Em) as [S1 S2].
     rewrite layers_ok_app, cod_of_app, H1, H2. cbn [andb].
     apply (conj_ok cod _ _ _ _ S1 S2 E2). eapply from_tk_box_cod; eauto.
 Qed.
 
-Lemma from_tk_cmds_ok : forall cs nq nb psel cod f f',
+Lemma from_tk_cmds_ok : forall fx cs nq nb psel cod f f',
   layers_ok [] (f_layers f) = true -> cod_of [] (f_layers f) = cod ->
-  from_tk_cmds nq nb psel cod f cs = Ok f' ->
+  from_tk_cmds fx nq nb psel cod f cs = Ok f' ->
   layers_ok [] (f_layers f') = true /\ cod_of [] (f_layers f') = cod.
 Proof.
-  induction cs as [|c cs IH]; intros nq nb psel cod f f' H1 H2 H; simpl in H.
+  intros fx. induction cs as [|c cs IH]; intros nq nb psel cod f f' H1 H2 H; simpl in H.
   - inversion H; subst. auto.
-  - destruct (from_tk_cmd nq nb psel cod f c) as [f1|] eqn:E; cbn [bind] in H; [|discriminate].
-    destruct (from_tk_cmd_ok _ _ _ _ _ _ _ H1 H2 E) as [G1 G2]. eapply IH; eauto.
+  - destruct (from_tk_cmd fx nq nb psel cod f c) as [f1|] eqn:E; cbn [bind] in H; [|discriminate].
+    destruct (from_tk_cmd_ok _ _ _ _ _ _ _ _ H1 H2 E) as [G1 G2]. eapply IH; eauto.
 Qed.
 
 Lemma prep_layer_ok : forall pre b w,
@@ -1377,13 +1397,13 @@ Qed.
 (* from_tk: the preparation layers and everything the command loop adds (swaps, gates,
    overriding measurements, undone swaps) form a well-typed circuit from the empty type
    to qubit ** n_qubits @ bit ** n_bits, for EVERY command list on which the loop succeeds *)
-Theorem from_tk_loop_well_typed : forall nq nb psel cs f,
-  from_tk_cmds nq nb psel (rep nq WQubit ++ rep nb WBit)
+Theorem from_tk_loop_well_typed : forall fx nq nb psel cs f,
+  from_tk_cmds fx nq nb psel (rep nq WQubit ++ rep nb WBit)
                (FTK (ket_layers nq 0 ++ bits_layers nb nq) []) cs = Ok f ->
   layers_ok [] (f_layers f) = true /\
   cod_of [] (f_layers f) = rep nq WQubit ++ rep nb WBit.
 Proof.
-  intros nq nb psel cs f H.
+  intros fx nq nb psel cs f H.
   eapply from_tk_cmds_ok; [| |exact H]; cbn [f_layers].
   - rewrite layers_ok_app. destruct (ket_layers_ok nq []) as [K1 K2]. cbn [length app] in K1, K2.
     rewrite K1, K2. cbn [andb].
@@ -1395,14 +1415,10 @@ Proof.
 Qed.
 
 (* the full statement: the whole answer of from_tk is a well-typed circuit without inputs *)
-Definition from_tk_well_typed_stmt : Prop :=
-  forall t sid c, from_tk t sid = Ok c -> circuit_ok c = true /\ c_dom c = [].
+Definition from_tk_well_typed_stmt (fx : fixes) : Prop :=
+  forall t sid c, from_tk fx t sid = Ok c -> circuit_ok c = true /\ c_dom c = [].
 
 (* ---- the rest of from_tk: post-selections / discards, scalar, post-processing ---- *)
-Definition cmds_in_range (nq : nat) (cs : list cmd) : bool :=
-  forallb (fun c => forallb (fun q => q <? nq) (c_qs c)) cs.
-Definition pp_layers (p : ppd) : list layer := map (fun '(b, o) => (pbox_to_box b, o)) (pp_boxes p).
-Definition pp_ok (p : ppd) : bool := layers_ok (rep (pp_dom p) WBit) (pp_layers p).
 
 Lemma ps_set_keys : forall ps k v n,
   Forall (fun kv : nat * bool => fst kv < n) ps -> k < n -> Forall (fun kv => fst kv < n) (ps_set ps k v).
@@ -1419,11 +1435,11 @@ Proof.
   inversion H; subst. simpl in H2. destruct (Nat.eqb_spec k k'); [lia|]. eapply IH; eauto.
 Qed.
 
-Lemma from_tk_cmd_bras : forall nq nb psel cod f c f',
+Lemma from_tk_cmd_bras : forall fx nq nb psel cod f c f',
   Forall (fun kv => fst kv < nq) (f_bras f) -> forallb (fun q => q <? nq) (c_qs c) = true ->
-  from_tk_cmd nq nb psel cod f c = Ok f' -> Forall (fun kv => fst kv < nq) (f_bras f').
+  from_tk_cmd fx nq nb psel cod f c = Ok f' -> Forall (fun kv => fst kv < nq) (f_bras f').
 Proof.
-  intros nq nb psel cod f c f' HB Hr H. unfold from_tk_cmd in H.
+  intros fx nq nb psel cod f c f' HB Hr H. unfold from_tk_cmd in H.
   destruct (c_op c =? op_Measure)%Z.
   - unfold nth_res in H. destruct (nth_error (c_qs c) 0) as [offset|] eqn:E0; cbn [bind] in H; [|discriminate].
     destruct (nth_error (c_bs c) 0) as [bi|]; cbn [bind] in H; [|discriminate].
@@ -1435,18 +1451,18 @@ Proof.
       inversion H; subst. auto.
   - destruct (from_tk_box c); cbn [bind] in H; [|discriminate].
     destruct (nth_res (c_qs c) 0) as [q0|]; cbn [bind] in H; [|discriminate].
-    destruct (mua_loop cod q0 [] (tl (c_qs c)) 0) as [[offset scod] sw].
+    destruct (mua_loop fx cod q0 [] (tl (c_qs c)) 0) as [[offset scod] sw].
     match type of H with context [layer_ok ?sc ?l] => destruct (layer_ok sc l) end; cbn [negb] in H; [|discriminate].
     inversion H; subst. auto.
 Qed.
-Lemma from_tk_cmds_bras : forall cs nq nb psel cod f f',
+Lemma from_tk_cmds_bras : forall fx cs nq nb psel cod f f',
   Forall (fun kv => fst kv < nq) (f_bras f) -> cmds_in_range nq cs = true ->
-  from_tk_cmds nq nb psel cod f cs = Ok f' -> Forall (fun kv => fst kv < nq) (f_bras f').
+  from_tk_cmds fx nq nb psel cod f cs = Ok f' -> Forall (fun kv => fst kv < nq) (f_bras f').
 Proof.
-  induction cs as [|c cs IH]; intros nq nb psel cod f f' HB Hr H; simpl in *.
+  intros fx. induction cs as [|c cs IH]; intros nq nb psel cod f f' HB Hr H; simpl in *.
   - inversion H; subst; auto.
   - apply andb_prop in Hr. destruct Hr as [Hr1 Hr2].
-    destruct (from_tk_cmd nq nb psel cod f c) as [f1|] eqn:E; cbn [bind] in H; [|discriminate].
+    destruct (from_tk_cmd fx nq nb psel cod f c) as [f1|] eqn:E; cbn [bind] in H; [|discriminate].
     eapply IH; [| |exact H]; auto. eapply from_tk_cmd_bras; eauto.
 Qed.
 
@@ -1490,17 +1506,17 @@ Qed.
 
 (* from_tk returns a well-typed circuit without inputs, for every tket circuit whose
    commands address existing qubits and whose post-processing is itself well-typed *)
-Theorem from_tk_well_typed_lemma : forall t sid c,
+Theorem from_tk_well_typed_lemma : forall fx t sid c,
   cmds_in_range (t_nq t) (t_cmds t) = true -> pp_ok (t_pp t) = true ->
-  from_tk t sid = Ok c ->
+  from_tk fx t sid = Ok c ->
   circuit_ok c = true /\ c_dom c = [] /\
   cod_of [] (c_layers c) = cod_of (rep (pp_dom (t_pp t)) WBit) (pp_layers (t_pp t)).
 Proof.
-  intros t sid c Hr Hpp H. unfold from_tk in H.
+  intros fx t sid c Hr Hpp H. unfold from_tk in H.
   set (nb := t_nb t - length (t_psel t)) in *. set (nq := t_nq t) in *.
-  destruct (from_tk_cmds nq nb (t_psel t) (rep nq WQubit ++ rep nb WBit)
+  destruct (from_tk_cmds fx nq nb (t_psel t) (rep nq WQubit ++ rep nb WBit)
               (FTK (ket_layers nq 0 ++ bits_layers nb nq) []) (t_cmds t)) as [f|] eqn:E; cbn [bind] in H; [|discriminate].
-  destruct (from_tk_loop_well_typed _ _ _ _ _ E) as [L1 L2].
+  destruct (from_tk_loop_well_typed _ _ _ _ _ _ E) as [L1 L2].
   assert (HB : Forall (fun kv => fst kv < nq) (f_bras f)).
   { eapply from_tk_cmds_bras; [| |exact E]; auto. constructor. }
   assert (Hfin : final_layers (rep nb WBit) (f_bras f) (0 + nq) (length (@nil wty)) = []).
@@ -1525,7 +1541,7 @@ Example from_tk_well_typed_example :
                    Cmd 14 (Some (Dy 5 2)) [2; 0] []; Cmd 0 None [0] [0]]
               [(2, true)] [] (PP 2 2 [(PSwap, 0)]) in
   cmds_in_range (t_nq t) (t_cmds t) = true /\ pp_ok (t_pp t) = true /\
-  exists c, from_tk t (Some 0%Z) = Ok c /\ circuit_ok c = true /\ Nat.ltb 20 (length (c_layers c)) = true.
+  exists c, from_tk pinned t (Some 0%Z) = Ok c /\ circuit_ok c = true /\ Nat.ltb 20 (length (c_layers c)) = true.
 Proof. vm_compute. split; auto. split; auto. eexists. split; [reflexivity|]. split; reflexivity. Qed.
 
 (* Conjecture kept as a statement (NOT asserted, not proved): outside the trigger
@@ -1533,13 +1549,13 @@ Proof. vm_compute. split; auto. split; auto. eexists. split; [reflexivity|]. spl
    on every generated circuit through the extracted model (counter `routing:trigger-free`). *)
 Definition no_trigger (f : flags) : bool :=
   negb (fl_f10 f || fl_f30 f || fl_f31 f || fl_f32 f || fl_f34 f || fl_over f || fl_arity f).
-Definition to_tk_routing_trigger_free_stmt : Prop :=
-  forall c t, circuit_ok (prep c) = true -> to_tk c = Ok t ->
-              no_trigger (to_tk_flags c) = true -> routing_ok c t = true.
+Definition to_tk_routing_trigger_free_stmt (fx : fixes) : Prop :=
+  forall c t, circuit_ok (prep c) = true -> to_tk fx c = Ok t ->
+              no_trigger (to_tk_flags fx c) = true -> routing_ok c t = true.
 
 (* the `bits` list is NOT kept increasing / in wire order by the code (F10): *)
 Theorem to_tk_bits_order_refuted_F10 :
-  exists s, to_tk_state f10_witness = Ok s /\ s_bits s = [1; 0].
+  exists s, to_tk_state pinned f10_witness = Ok s /\ s_bits s = [1; 0].
 Proof. vm_compute. eexists. split; reflexivity. Qed.
 
 (* non-vacuity of prepare_bits_tracks: a state with a post-selected bit 0 and a live bit 1 *)
@@ -1554,4 +1570,71 @@ Proof.
   - intros k. unfold has_key. simpl. destruct k; simpl; [lia | discriminate].
   - simpl. lia.
   - vm_compute. eexists. repeat split.
+Qed.
+
+(* ------------------------------------------------------------------ the repaired behaviour *)
+Lemma layers_allowed_fx34 : forall fx ls, fx34 fx = true -> layers_allowed fx ls = true.
+Proof.
+  intros fx ls H. unfold layers_allowed. apply forallb_forall. intros [b off] _. simpl.
+  destruct b; auto. destruct destr, over; auto.
+Qed.
+
+(* with the F34 repair the register invariant and the trace refinement hold for EVERY
+   circuit, overriding measurements (destructive or not) included *)
+Theorem to_tk_registers_inv_repaired_lemma : forall fx dom ls1 ls2 s',
+  fx34 fx = true -> to_tk_layers fx dom st0 (ls1 ++ ls2) = Ok s' ->
+  exists s1 q1 rho1,
+    to_tk_layers fx dom st0 ls1 = Ok s1 /\
+    qtrace_layers dom (QS [] 0 []) ls1 = Some q1 /\
+    registers_ok s1 q1 rho1.
+Proof.
+  intros fx dom ls1 ls2 s' Hfx H.
+  eapply to_tk_registers_inv_lemma; eauto. apply layers_allowed_fx34; auto.
+Qed.
+
+Theorem to_tk_refines_trace_repaired_lemma : forall fx c s,
+  fx34 fx = true -> to_tk_state fx c = Ok s ->
+  exists q rho,
+    qtrace (prep c) = Some q /\
+    (forall a b, a < q_next q -> b < q_next q -> rho a = rho b -> a = b) /\
+    map qpart (t_cmds (s_tk s)) = map (relabel rho) (q_events q).
+Proof.
+  intros fx c s Hfx H. eapply to_tk_refines_trace_circuit; eauto. apply layers_allowed_fx34; auto.
+Qed.
+
+(* with the F32 repair a swap of two bits that are not post-selected leaves post_selection alone *)
+Lemma ps_rename_absent : forall ps i k, has_key ps i = false -> ps_rename ps [(i, k)] = ps.
+Proof.
+  intros ps i k H. unfold ps_rename, has_key in *. simpl.
+  destruct (ps_lookup ps i); [discriminate|]. reflexivity.
+Qed.
+Theorem swap_keeps_post_selection_repaired : forall fx, fx32 fx = true -> swap_keeps_post_selection_stmt fx.
+Proof.
+  intros fx Hfx t i j Hi Hj. unfold swap_bits. cbn [t_psel]. rewrite Hfx.
+  rewrite (ps_rename_absent _ i 0 Hi). apply ps_rename_absent. exact Hj.
+Qed.
+
+(* the former counter-examples under the repaired behaviour *)
+Example repaired_witnesses :
+  (exists t, to_tk repaired f10_witness = Ok t /\ routing_ok f10_witness t = true) /\
+  (exists t, to_tk repaired f31_witness = Ok t /\ routing_ok f31_witness t = true) /\
+  (exists t, to_tk repaired f32_witness = Ok t /\ routing_ok f32_witness t = true /\
+             t_psel t = [(0, false)]) /\
+  (exists s, to_tk_state repaired f34_witness = Ok s /\ s_qubits s = [] /\
+             map qpart (t_cmds (s_tk s)) = [(4%Z, None, [2]); (0%Z, None, [1]); (0%Z, None, [2])] /\
+             routing_ok f34_witness (s_tk s) = true) /\
+  (exists t c2, to_tk repaired f18_witness = Ok t /\ from_tk repaired t (scalar_flag t) = Ok c2 /\
+                circuit_ok c2 = true) /\
+  (exists c, from_tk repaired f33_witness None = Ok c /\ from_tk_trace_ok f33_witness c = true) /\
+  (* F30 has no repair: its witness still fails *)
+  (exists t, to_tk repaired f30_witness = Ok t /\ routing_ok f30_witness t = false).
+Proof.
+  vm_compute.
+  split; [eexists; split; reflexivity|].
+  split; [eexists; split; reflexivity|].
+  split; [eexists; split; [reflexivity|split; reflexivity]|].
+  split; [eexists; split; [reflexivity|split; [reflexivity|split; reflexivity]]|].
+  split; [eexists; eexists; split; [reflexivity|split; reflexivity]|].
+  split; [eexists; split; reflexivity|].
+  eexists; split; reflexivity.
 Qed.
